@@ -167,6 +167,16 @@ def final_checks(ctx: Ctx, m: Monitor, bio):
             continue
         pos = position(res)
         tolres = maxres.get(id(res), 0.0) + 1e-3
+        # distortion already present among BONDED input heavy atoms of the residue (a fit may not borrow
+        # slack from atoms that are not bonded, e.g. across a chain break)
+        bonded_dist = 0.0
+        for v in res.atoms:
+            if v.added or v.name not in ref.map:
+                continue
+            for u in ref.map[v.name].bonds:
+                if res.has_atom(u) and not res.get_atom(u).added:
+                    bonded_dist = max(bonded_dist, abs(dist(v.coords, res.get_atom(u).coords) - dist(ref.map[v.name].coords, ref.map[u].coords)))
+        tolres = min(tolres, max(0.25, 2.0 * bonded_dist))
         for a in res.atoms:
             if not a.added or id(a) in m.flip_alias or a.name not in ref.map:
                 continue
@@ -188,7 +198,7 @@ def final_checks(ctx: Ctx, m: Monitor, bio):
                 d = dist(a.coords, ua.coords)
                 ctx.count("bond-deviation-A", "<0.01" if abs(d - tpl) < 0.01 else "<0.05" if abs(d - tpl) < 0.05 else ">=0.05")
                 if abs(d - tpl) > tolres:
-                    out.append(({"kind": "bond", "residue": res.name, "pos": pos, "atom": a.name}, f"{res} {a.name}-{u}: {d:.4f} A, template {tpl:.4f} A, largest fit residual in the residue {tolres - 1e-3:.4f} A"))
+                    out.append(({"kind": "bond", "residue": res.name, "pos": pos, "atom": a.name}, f"{res} {a.name}-{u}: {d:.4f} A, template {tpl:.4f} A, tolerance {tolres:.4f} A (largest fit residual of the residue, capped by the distortion among its bonded input atoms)"))
                     break
             if isH and nbs:
                 p = nbs[0]
